@@ -263,11 +263,13 @@ func (m *roaManager) handleRTRMsg(client *roaClient, state *oc.RpkiServerState, 
 			}
 		case *rtr.RTREndOfData:
 			received.EndOfData++
-			if client.sessionID != msg.SessionID {
+			if client.sessionID != msg.SessionID || client.fullReload {
 				// remove all ROAs related with the
-				// previous session
+				// previous session, or replaced by the answer to
+				// a Reset Query, which carries the whole data set
 				m.table.DeleteAll(client.host)
 			}
+			client.fullReload = false
 			client.sessionID = msg.SessionID
 			client.serialNumber = msg.SerialNumber
 			client.endOfData = true
@@ -349,6 +351,7 @@ type roaClient struct {
 	timer        *time.Timer
 	lifetime     int64
 	endOfData    bool
+	fullReload   bool // a Reset Query is outstanding: the next End of Data completes a whole data set
 	pendingROAs  []*table.ROA
 	cancelfnc    context.CancelFunc
 	ctx          context.Context
@@ -391,6 +394,7 @@ func (c *roaClient) softReset() error {
 		}
 		c.state.RpkiMessages.RpkiSent.ResetQuery++
 		c.endOfData = false
+		c.fullReload = true
 		c.pendingROAs = make([]*table.ROA, 0)
 	}
 	return nil
